@@ -219,7 +219,14 @@ fn literal_cases() -> Vec<Case> {
         for p in &parents {
             let t = (p.build)((0..p.arity).map(|_| leaf.clone()).collect());
             if let Some(text) = t.unparse() {
-                out.push(Case { label: format!("literal/{ll}/under-{}", p.label), text, tree: t });
+                out.push(Case { label: format!("literal/{ll}/under-{}", p.label), text, tree: t.clone() });
+            }
+            // where the literal touches the operator, also enter through the fully parenthesised
+            // text (a lexer change can close the minimal route and leave this one open)
+            if ["IndexField", "IndexPos", "Neg", "Contains", "BitAnd"].contains(&p.label.as_str()) {
+                if let Some(text) = t.unparse_with_extra(u64::MAX) {
+                    out.push(Case { label: format!("literal/{ll}/under-{}/every-node-parenthesised", p.label), text, tree: t });
+                }
             }
         }
     }
@@ -306,6 +313,20 @@ fn check_case(c: &Case, acc: &mut Acc) {
             return;
         }
     };
+    // the alternate flag must not produce a different language either
+    if let Ok(alt) = catch(|| format!("{e:#}")) {
+        if alt != rendered {
+            let same = matches!(catch(|| Expr::parse(&alt)), Ok(Ok(e3)) if RE::from_expr(&e3) == t1);
+            if !same {
+                acc.violation(Violation {
+                    sig: format!("alternate-rendering/{}", c.label),
+                    what: format!("{:?} parses; its `{{:#}}` rendering {alt:?} does not parse back to the same expression", c.text),
+                    case: json!({"kind": "roundtrip", "text": c.text}),
+                    size: c.text.len(),
+                });
+            }
+        }
+    }
     let second = catch(|| Expr::parse(&rendered));
     let problem = match second {
         Err(p) => Some(("reparse-panic", format!("parsing the rendering {rendered:?} panicked: {p}"))),
